@@ -36,6 +36,7 @@ type handed struct {
 	s     string // as handed out, not copied
 	clone string // detached copy taken at hand-out time
 	from  Call
+	err   error // the error value itself, if the string is its text: Error() is called again when the pair is compared
 }
 
 type clientState struct {
@@ -161,6 +162,9 @@ func Run(p *Plan, ch simsync.Chooser) *Outcome {
 		sim.Go(fmt.Sprintf("client%d", c), func() {
 			checkHanded := func() bool {
 				for i := range st.handed {
+					if st.handed[i].err != nil {
+						st.handed[i].s = st.handed[i].err.Error()
+					}
 					if st.handed[i].s != st.handed[i].clone {
 						st.changed = &st.handed[i]
 						return false
@@ -205,9 +209,13 @@ func Run(p *Plan, ch simsync.Chooser) *Outcome {
 					return
 				}
 				if p.Prop == "C12" {
-					for _, h := range res.Handed {
+					for hi, h := range res.Handed {
 						if len(h) > 0 {
-							st.handed = append(st.handed, handed{h, cloneStr(h), cl})
+							hd := handed{s: h, clone: cloneStr(h), from: cl}
+							if hi == 0 && res.Err != nil {
+								hd.err = res.Err
+							}
+							st.handed = append(st.handed, hd)
 						}
 					}
 					if len(st.handed) > 4000 {
